@@ -56,20 +56,20 @@ Fixpoint sha1_sched (n : nat) (W : list Z) : list Z :=
   | S n' =>
       let t := length W in
       let g i := nth (t - i) W 0 in
-      sha1_sched n' (W ++ [wrotl 32 (Z.lxor (Z.lxor (Z.lxor (g 3%nat) (g 8%nat)) (g 14%nat)) (g 16%nat)) 1])
+      sha1_sched n' (W ++ [wrotl 32 m32 (Z.lxor (Z.lxor (Z.lxor (g 3%nat) (g 8%nat)) (g 14%nat)) (g 16%nat)) 1])
   end.
 
 Definition sha1_step (W : list Z) (s : list Z) (t : nat) : list Z :=
   match s with
   | [a; b; c; d; e] =>
-      let T := wadd 32 (wadd 32 (wadd 32 (wadd 32 (wrotl 32 a 5) (sha1_ft t b c d)) e) (sha1_Kt t)) (nth t W 0) in
-      [T; a; wrotl 32 b 30; c; d]
+      let T := wadd m32 (wadd m32 (wadd m32 (wadd m32 (wrotl 32 m32 a 5) (sha1_ft t b c d)) e) (sha1_Kt t)) (nth t W 0) in
+      [T; a; wrotl 32 m32 b 30; c; d]
   | _ => s
   end.
 
 Definition sha1_compress (H : list Z) (block : list Z) : list Z :=
   let W := sha1_sched 64 (map be_word (group 4 block)) in
-  map2 (wadd 32) H (fold_left (sha1_step W) (seq 0 80) H).
+  map2 (wadd m32) H (fold_left (sha1_step W) (seq 0 80) H).
 
 Definition sha1_spec (msg : list Z) : list Z :=
   flat_map (be_bytes 4) (md_fold 64 sha1_compress sha1_H0 (md_pad 64 8 true msg)).
@@ -78,14 +78,14 @@ Definition sha1_spec (msg : list Z) : list Z :=
 (* SHA-256 and SHA-512, FIPS 180-4 sections 6.2 and 6.4 (one text, parameterised by the word
    size, the rotation amounts of 4.1.2 / 4.1.3 and the constants of 4.2.2 / 4.2.3)              *)
 Section SHA2.
-  Variable w : Z.
+  Variables w m : Z.     (* word size in bits, all-ones word *)
   Variables S0 S1 s0 s1 : Z * Z * Z.
   Variable K : list Z.
 
   Definition rot3 (p : Z * Z * Z) (x : Z) : Z :=
-    let '(a, b, c) := p in Z.lxor (Z.lxor (wrotr w x a) (wrotr w x b)) (wrotr w x c).
+    let '(a, b, c) := p in Z.lxor (Z.lxor (wrotr w m x a) (wrotr w m x b)) (wrotr w m x c).
   Definition rot2shr (p : Z * Z * Z) (x : Z) : Z :=
-    let '(a, b, c) := p in Z.lxor (Z.lxor (wrotr w x a) (wrotr w x b)) (wshr x c).
+    let '(a, b, c) := p in Z.lxor (Z.lxor (wrotr w m x a) (wrotr w m x b)) (wshr x c).
 
   (* W_t = sigma1(W_{t-2}) + W_{t-7} + sigma0(W_{t-15}) + W_{t-16} *)
   Fixpoint sha2_sched (n : nat) (W : list Z) : list Z :=
@@ -94,21 +94,21 @@ Section SHA2.
     | S n' =>
         let t := length W in
         let g i := nth (t - i) W 0 in
-        sha2_sched n' (W ++ [wadd w (wadd w (wadd w (rot2shr s1 (g 2%nat)) (g 7%nat)) (rot2shr s0 (g 15%nat))) (g 16%nat)])
+        sha2_sched n' (W ++ [wadd m (wadd m (wadd m (rot2shr s1 (g 2%nat)) (g 7%nat)) (rot2shr s0 (g 15%nat))) (g 16%nat)])
     end.
 
   Definition sha2_step (W : list Z) (s : list Z) (t : nat) : list Z :=
     match s with
     | [a; b; c; d; e; f; g; h] =>
-        let T1 := wadd w (wadd w (wadd w (wadd w h (rot3 S1 e)) (Ch e f g)) (nth t K 0)) (nth t W 0) in
-        let T2 := wadd w (rot3 S0 a) (Maj a b c) in
-        [wadd w T1 T2; a; b; c; wadd w d T1; e; f; g]
+        let T1 := wadd m (wadd m (wadd m (wadd m h (rot3 S1 e)) (Ch e f g)) (nth t K 0)) (nth t W 0) in
+        let T2 := wadd m (rot3 S0 a) (Maj a b c) in
+        [wadd m T1 T2; a; b; c; wadd m d T1; e; f; g]
     | _ => s
     end.
 
   Definition sha2_compress (H : list Z) (block : list Z) : list Z :=
     let W := sha2_sched (length K - 16) (map be_word (group (Z.to_nat (w / 8)) block)) in
-    map2 (wadd w) H (fold_left (sha2_step W) (seq 0 (length K)) H).
+    map2 (wadd m) H (fold_left (sha2_step W) (seq 0 (length K)) H).
 End SHA2.
 
 Definition sha256_H0 : list Z :=
@@ -124,7 +124,7 @@ Definition sha256_Kspec : list Z := [
   0x748f82ee; 0x78a5636f; 0x84c87814; 0x8cc70208; 0x90befffa; 0xa4506ceb; 0xbef9a3f7; 0xc67178f2
 ].
 Definition sha256_compress_spec : list Z -> list Z -> list Z :=
-  sha2_compress 32 (2, 13, 22) (6, 11, 25) (7, 18, 3) (17, 19, 10) sha256_Kspec.
+  sha2_compress 32 m32 (2, 13, 22) (6, 11, 25) (7, 18, 3) (17, 19, 10) sha256_Kspec.
 Definition sha256_spec (msg : list Z) : list Z :=
   flat_map (be_bytes 4) (md_fold 64 sha256_compress_spec sha256_H0 (md_pad 64 8 true msg)).
 
@@ -155,7 +155,7 @@ Definition sha512_Kspec : list Z := [
   0x4cc5d4becb3e42b6; 0x597f299cfc657e2a; 0x5fcb6fab3ad6faec; 0x6c44198c4a475817
 ].
 Definition sha512_compress_spec : list Z -> list Z -> list Z :=
-  sha2_compress 64 (28, 34, 39) (14, 18, 41) (1, 8, 7) (19, 61, 6) sha512_Kspec.
+  sha2_compress 64 m64 (28, 34, 39) (14, 18, 41) (1, 8, 7) (19, 61, 6) sha512_Kspec.
 Definition sha512_spec (msg : list Z) : list Z :=
   flat_map (be_bytes 8) (md_fold 128 sha512_compress_spec sha512_H0 (md_pad 128 16 true msg)).
 
@@ -192,7 +192,7 @@ Definition md5_T : list Z := [   (* T[i] = floor(4294967296 * abs(sin(i))), i = 
 Definition md5_F (x y z : Z) : Z := Z.lor (Z.land x y) (Z.ldiff z x).      (* XY v not(X) Z *)
 Definition md5_G (x y z : Z) : Z := Z.lor (Z.land x z) (Z.ldiff y z).      (* XZ v Y not(Z) *)
 Definition md5_H (x y z : Z) : Z := Z.lxor (Z.lxor x y) z.
-Definition md5_I (x y z : Z) : Z := Z.lxor y (Z.lor x (wnot 32 z)).        (* Y xor (X v not(Z)) *)
+Definition md5_I (x y z : Z) : Z := Z.lxor y (Z.lor x (wnot m32 z)).        (* Y xor (X v not(Z)) *)
 (* operation i (0..63): function, word index k, shift s *)
 Definition md5_fn (i : nat) : Z -> Z -> Z -> Z :=
   match (i / 16)%nat with 0%nat => md5_F | 1%nat => md5_G | 2%nat => md5_H | _ => md5_I end.
@@ -208,13 +208,13 @@ Definition md5_s (i : nat) : Z :=
 Definition md5_step (X : list Z) (st : list Z) (i : nat) : list Z :=
   match st with
   | [a; b; c; d] =>
-      let v := wadd 32 (wadd 32 (wadd 32 a (md5_fn i b c d)) (nth (md5_k i) X 0)) (nth i md5_T 0) in
-      [d; wadd 32 b (wrotl 32 v (md5_s i)); b; c]
+      let v := wadd m32 (wadd m32 (wadd m32 a (md5_fn i b c d)) (nth (md5_k i) X 0)) (nth i md5_T 0) in
+      [d; wadd m32 b (wrotl 32 m32 v (md5_s i)); b; c]
   | _ => st
   end.
 Definition md5_compress_spec (H : list Z) (block : list Z) : list Z :=
   let X := map le_word (group 4 block) in
-  map2 (wadd 32) H (fold_left (md5_step X) (seq 0 64) H).
+  map2 (wadd m32) H (fold_left (md5_step X) (seq 0 64) H).
 Definition md5_spec (msg : list Z) : list Z :=
   flat_map (le_bytes 4) (md_fold 64 md5_compress_spec md5_H0 (md_pad 64 8 false msg)).
 
